@@ -11,7 +11,8 @@
 (***************************************************************************)
 EXTENDS Queries, Json
 CONSTANTS MaxLines, MaxLive, HeaderRows,
-          Lean          \* TRUE: operator lines and one kind of data line only (deep spine-operator layouts)
+          Lean,         \* TRUE: operator lines and one kind of data line only (deep spine-operator layouts)
+          Ext           \* TRUE: the extended machine: add-spine operators, the line naming the new spine, a second section, '*x'
 VARIABLE fed                                  \* history: the line events fed so far
 mcVars == <<stages, live, gtail, mstarts, lineno, errs, status, fed>>
 HR1 == {<<HKern>>}
@@ -37,7 +38,9 @@ LiveType(i) == TypeOf(At(live[i]))
 N == Len(live)
 DataChoices(i) == IF LiveType(i) \in KernLike THEN {NoteC, NullC} ELSE {TextC, NullC}
 InterpChoices(i) == IF LiveType(i) \in KernLike THEN {NulliC, ClefC} ELSE {NulliC}
-OpChoices(i) == {NulliC, SplitC, JoinC, TermC}
+AddC == [k |-> "add", t |-> <<STAR, 43>>]
+ExchC == [k |-> "exch", t |-> <<STAR, 120>>]
+OpChoices(i) == {NulliC, SplitC, JoinC, TermC} \cup (IF Ext THEN {AddC} ELSE {})
 RowsOf(Ch(_)) == {cs \in [1..N -> UNION {Ch(i) : i \in 1..N}] : \A i \in 1..N : cs[i] \in Ch(i)}
 \* a join run (adjacent joins of one spine) must have at least two members
 WellFormedOps(cs) ==
@@ -62,11 +65,16 @@ MCNext ==
                        (fed[Len(fed)].ev = "header" \/ \E i \in 1..Len(fed[Len(fed)].cells) : fed[Len(fed)].cells[i].k \in OpClasses)   \* no two data lines in a row
                        /\ Row(cs) /\ Feed([ev |-> "row", cells |-> cs])
            \/ \E cs \in RowsOf(OpChoices) : WellFormedOps(cs) /\ Row(cs) /\ Feed([ev |-> "row", cells |-> cs])
+           \* the extended machine: the line that names the spine added by '*+' (its second continuation), a line with '*x'
+           \/ Ext /\ \E j \in 2..N : /\ At(live[j]).cell.k = "add" /\ live[j - 1] = live[j]
+                                      /\ LET cs == [i \in 1..N |-> IF i = j THEN HdrC(HText) ELSE NulliC] IN Row(cs) /\ Feed([ev |-> "row", cells |-> cs])
+           \/ Ext /\ N >= 2 /\ LET cs == [i \in 1..N |-> IF i <= 2 THEN ExchC ELSE NulliC] IN Unsupported(cs) /\ Feed([ev |-> "unsupported", cells |-> cs])
            \* a line of ANY kind with one cell too many: data, local comment, barline, interpretation
            \/ ~Lean /\ \E c \in {NullC, FcomC, BarC, NulliC} : LET cs == [i \in 1..(N + 1) |-> c] IN Surplus(cs) /\ Feed([ev |-> "surplus", cells |-> cs])
            \* ... or whose surplus cell is an exclusive interpretation (a spine cannot start out of nowhere)
            \/ ~Lean /\ LET cs == [i \in 1..(N + 1) |-> IF i <= N THEN NulliC ELSE HdrC(HText)] IN Surplus(cs) /\ Feed([ev |-> "surplus", cells |-> cs])
-MCSpec == MCInit /\ [][MCNext]_mcVars
+MCNextExt == MCNext \/ (Ext /\ Len(fed) < MaxLines /\ LET cs == <<HdrC(HKern)>> IN Reopen(cs) /\ Feed([ev |-> "header", cells |-> cs]))
+MCSpec == MCInit /\ [][MCNextExt]_mcVars
 
 (* ------------------------------ invariants ------------------------------ *)
 NonBlank == SelectSeq(fed, LAMBDA e : e.ev \in {"global", "header", "row"})
@@ -74,7 +82,7 @@ StagePerLine == Len(stages) = 1 + Len(NonBlank)
 NodePerCell == \A r \in 1..Len(NonBlank) : Len(stages[r + 1]) = (IF NonBlank[r].ev = "global" THEN 1 ELSE Len(NonBlank[r].cells))
                                            /\ \A i \in 1..Len(stages[r + 1]) :
                                                  stages[r + 1][i].cell = (IF NonBlank[r].ev = "global" THEN NonBlank[r].cell ELSE NonBlank[r].cells[i])
-SurplusRejects == \A j \in 1..Len(fed) : fed[j].ev = "surplus" => (status = "rejected" /\ j = Len(fed))
+SurplusRejects == \A j \in 1..Len(fed) : fed[j].ev \in {"surplus", "unsupported"} => (status = "rejected" /\ j = Len(fed))
 InvParent == ParentOnSamePath
 InvHeader == HeaderIdentity
 InvComments == CommentChain
@@ -86,8 +94,9 @@ InvClosed == ClosedMeansNoLive
 (* -------------------- document-level laws (closed states) --------------- *)
 Closed == status = "closed"
 \* C17: the traversal order is the order the property words; every node once
+SingleHeaderLine == Cardinality({s \in 2..Len(stages) : \E i \in 1..Len(stages[s]) : stages[s][i].cell.k = "hdr"}) = 1
 ListingOrderOK == Closed => LET d == DfsOrder IN
-                    /\ d = WordedOrder
+                    /\ SingleHeaderLine => d = WordedOrder       \* the property's wording speaks of one header line
                     /\ Len(d) = Cardinality(SetOf(d))
                     /\ Len(d) = FoldLeft(LAMBDA a, s : a + Len(stages[s]), 0, [s \in 1..(Len(stages) - 1) |-> s + 1])
 \* C03: the default export is the source grid minus global comments and all-null lines, cell for cell
